@@ -233,3 +233,20 @@ def ref_cm_sorted(spos, sneg, threshold, score_class, equal_class, easy_pos=0, e
     else:
         tp, fp = accepted(spos), accepted(sneg)
     return [[tp + easy_pos, len(spos) - tp], [fp, len(sneg) - fp + easy_neg]]
+
+
+def ref_mann_whitney_sorted(spos, sneg, score_class, easy_pos=0, easy_neg=0):
+    """Same statistic as ref_mann_whitney for sorted lists, O(n log n) with bisect (exact rational)."""
+    import bisect
+
+    P, N = len(spos) + easy_pos, len(sneg) + easy_neg
+    if P == 0 or N == 0:
+        return None
+    twice = 0  # 2 * (wins + ties/2), an integer
+    for p in spos:
+        lo = bisect.bisect_left(sneg, p)
+        hi = bisect.bisect_right(sneg, p)
+        below, ties, above = lo, hi - lo, len(sneg) - hi
+        twice += 2 * (below if score_class == "pos" else above) + ties
+    twice += 2 * (easy_pos * N + len(spos) * easy_neg)
+    return Fraction(twice, 2 * P * N)
